@@ -20,11 +20,43 @@ WRITE_MODES = ("w", "a", "x", "+")
 ALLOW_R2 = {
     ("pdb.py::read_pdb", "KeyError,ValueError"):
         "tolerant arm for non-coordinate records only; for ATOM/HETATM it re-raises (decided by C07.R2)",
-    ("forcefield.py::Forcefield.__init__", "FileNotFoundError"):
-        "falls back to the user-supplied names file and ends in an explicit ValueError when neither exists",
     ("cif.py::atom_site", "ValueError"):
         "a MODEL record that fails to parse is logged and reported in the error list; coordinate records are built outside it",
 }
+
+
+PURE_BUILTINS = {"len", "zip", "range", "enumerate", "str", "repr", "format", "sorted", "tuple", "list", "min", "max", "int", "float", "bool",
+                 "reversed", "isinstance", "iter", "next", "sum", "any", "all", "map", "filter"}
+STR_METHODS = {"join", "strip", "rstrip", "lstrip", "ljust", "rjust", "center", "format", "replace", "split", "startswith", "endswith",
+               "upper", "lower", "splitlines", "expandtabs", "zfill", "partition", "rpartition"}
+
+
+def deferred_raise(h, trynode, fn):
+    """Handler idiom 'remember the failure, raise later': the handler only assigns a falsy constant to a local name and a
+    raise after the try statement is guarded by that name being falsy.  Returns (name, line of the raise) or None."""
+    names = []
+    for st in h.body:
+        if isinstance(st, ast.Assign) and len(st.targets) == 1 and isinstance(st.targets[0], ast.Name) \
+                and isinstance(st.value, ast.Constant) and not st.value.value:
+            names.append(st.targets[0].id)
+        elif isinstance(st, ast.Expr) and isinstance(st.value, ast.Call) and U(st.value.func).startswith("_LOGGER."):
+            continue
+        else:
+            return None
+    end = getattr(trynode, "end_lineno", trynode.lineno)
+    for st in iter_stmts(fn.body):
+        if not isinstance(st, ast.Raise) or st.lineno <= end:
+            continue
+        for test, pol in guards_of(st, fn):
+            txt = U(test)
+            for v in names:
+                if (txt == v and not pol) or (txt in (f"not {v}", f"{v} is None") and pol):
+                    # the name must not be re-bound between the handler and the raise
+                    rebinds = [a for a in iter_stmts(fn.body) if isinstance(a, ast.Assign) and end < a.lineno < st.lineno
+                               and any(isinstance(t_, ast.Name) and t_.id == v for t_ in a.targets)]
+                    if not rebinds:
+                        return v, st.lineno
+    return None
 
 
 def check(prog, rep):
@@ -110,12 +142,24 @@ def check(prog, rep):
     withs = [s for s in pp.body if isinstance(s, ast.With)]
     bad = []
     if withs:
+        in_block = {id(c) for c in calls_in(ast.Module(body=withs[0].body, type_ignores=[]))}
+        resolved = {id(call): callees for call, callees in g.sites["main.py::print_pqr"]}
         for c in calls_in(ast.Module(body=withs[0].body, type_ignores=[])):
             nm = U(c.func)
-            if not (nm.startswith("_LOGGER.") or nm.endswith(".write") or nm == "len"):
-                bad.append(nm)
+            last = nm.split(".")[-1]
+            if nm.startswith("_LOGGER.") or last == "write":
+                continue
+            callees = resolved.get(id(c)) or []
+            if callees:
+                esc = sorted({cls for ck in callees for cls, _ in rs.escaping.get(ck, ())})
+                if esc:
+                    bad.append(f"{nm} (can raise {esc[:3]})")
+                continue
+            if (isinstance(c.func, ast.Name) and last in PURE_BUILTINS) or (isinstance(c.func, ast.Attribute) and last in STR_METHODS):
+                continue
+            bad.append(nm)
         raises = [s for s in iter_stmts(withs[0].body) if isinstance(s, ast.Raise)]
-        r1.add("print_pqr|write-block", not bad and not raises, f"calls inside the open block other than write/log: {bad or 'none'}; "
+        r1.add("print_pqr|write-block", not bad and not raises, f"calls inside the open block that can raise or cannot be resolved: {bad or 'none'}; "
                f"explicit raises: {len(raises)}", f"pdb2pqr/main.py:{withs[0].lineno} (print_pqr)")
     else:
         r1.bad("print_pqr|write-block", "print_pqr does not write inside a with-open block", f"pdb2pqr/main.py:{pp.lineno} (print_pqr)")
@@ -139,6 +183,9 @@ def check(prog, rep):
                     r2.ok(k, "no explicit pipeline error can arrive here (plain lookups/conversions)", where)
                 elif always_reraises(h):
                     r2.ok(k, f"catches {caught[:3]} and re-raises on every path", where)
+                elif deferred_raise(h, t, f.node):
+                    r2.ok(k, f"catches {caught[:2]}, records the failure in {deferred_raise(h, t, f.node)[0]!r} and raises at line "
+                          f"{deferred_raise(h, t, f.node)[1]} when no alternative was given (deferred re-raise)", where)
                 elif (key, hk) in ALLOW_R2:
                     r2.ok(k, f"reviewed: {ALLOW_R2[(key, hk)]} (catches {caught[:2]})", where)
                 else:
